@@ -121,3 +121,128 @@ func iterateCheck(r *hlib.Run, tc *toolchain) {
 		}
 	}
 }
+
+// iterateJumpCheck: `break` / `continue` whose target is an iterate loop. The
+// parser and checker accept them; the meaning can only be "next chunk" /
+// "leave the iterate statement" (doc/note/iterate-loops.md: unrolling "affects
+// performance but not semantics"). wuffs-c either refuses to translate such a
+// program (counted) or must emit C that does exactly that: each probe runs
+// under a watchdog (the unrepaired cgen wrote a C `continue` that skips the
+// chunk-pointer advance: the call never returns) and its visit log is compared
+// with the expected one (fixes/C04-iterate-jump.patch).
+func iterateJumpCheck(r *hlib.Run, tc *toolchain) {
+	type jp struct {
+		name, body string
+		want       func(n int) []int // logged bytes for the source 0,1,…,n-1
+	}
+	log := "this.log[this.cnt & 63] = c[0]\n        this.cnt ~mod+= 1\n"
+	probes := []jp{
+		{"continue-unroll2", "    iterate (c = args.src)(length: 1, advance: 1, unroll: 2) {\n        if c[0] == 2 {\n            continue\n        }\n        " + log + "    }\n",
+			func(n int) (o []int) {
+				for i := 0; i < n; i++ {
+					if i != 2 {
+						o = append(o, i)
+					}
+				}
+				return
+			}},
+		{"continue-unroll1", "    iterate (c = args.src)(length: 2, advance: 2, unroll: 1) {\n        if c[0] == 2 {\n            continue\n        }\n        " + log + "    }\n",
+			func(n int) (o []int) {
+				for i := 0; i+2 <= n; i += 2 {
+					if i != 2 {
+						o = append(o, i)
+					}
+				}
+				return
+			}},
+		{"break-else", "    iterate (c = args.src)(length: 2, advance: 2, unroll: 1) {\n        if c[0] == 2 {\n            break\n        }\n        " + log + "    } else (length: 1, advance: 1, unroll: 1) {\n        " + log + "    }\n",
+			func(n int) (o []int) {
+				i := 0
+				for ; i+2 <= n; i += 2 {
+					if i == 2 {
+						return
+					}
+					o = append(o, i)
+				}
+				for ; i < n; i++ {
+					o = append(o, i)
+				}
+				return
+			}},
+		{"deep-break", "    iterate.outer (c = args.src)(length: 1, advance: 1, unroll: 1) {\n        while true {\n            if c[0] == 3 {\n                break.outer\n            }\n            break\n        }\n        " + log + "    }.outer\n",
+			func(n int) (o []int) {
+				for i := 0; i < n && i != 3; i++ {
+					o = append(o, i)
+				}
+				return
+			}},
+	}
+	const maxN = 7
+	for k, p := range probes {
+		pkg := fmt.Sprintf("itj%d", k)
+		src := "pub struct it?(\n    cnt : base.u32,\n    log : array[64] base.u8,\n)\n\npub func it.r!(src: roslice base.u8) {\n    var c : roslice base.u8\n" + p.body + "}\n"
+		if _, err := parseAndCheck(pkg+".wuffs", []byte(src)); err != nil {
+			r.Count("iterate-jump:rejected-by-checker")
+			continue
+		}
+		dir := filepath.Join(tc.dir, pkg)
+		os.MkdirAll(dir, 0o755)
+		wf := filepath.Join(dir, pkg+".wuffs")
+		os.WriteFile(wf, []byte(src), 0o644)
+		csrc, stderr, err := hlib.GenPkg(tc.wuffsC, pkg, wf)
+		if err != nil {
+			if strings.Contains(string(stderr), "within an iterate loop") {
+				r.Count("iterate-jump:refused-by-wuffs-c")
+			} else {
+				r.Fail("iterate-jump:cgen-error:"+p.name, "wuffs-c gen fails on an accepted iterate loop with a jump: "+firstLines(string(stderr), 5), src)
+			}
+			continue
+		}
+		os.WriteFile(filepath.Join(dir, pkg+".c"), csrc, 0o644)
+		os.Symlink(tc.baseC, filepath.Join(dir, "wuffs-base.c"))
+		var m strings.Builder
+		fmt.Fprintf(&m, "#define WUFFS_IMPLEMENTATION\n#define WUFFS_CONFIG__MODULES\n#define WUFFS_CONFIG__MODULE__%s\n#include \"%s.c\"\n#include <stdio.h>\n#include <stdlib.h>\n", strings.ToUpper(pkg), pkg)
+		fmt.Fprintf(&m, "int main(int argc, char** argv) {\n  size_t n = (size_t)atoi(argv[1]);\n  wuffs_%s__it o;\n  wuffs_%s__it__initialize(&o, sizeof o, WUFFS_VERSION, 0);\n", pkg, pkg)
+		m.WriteString("  uint8_t* buf = (uint8_t*)malloc(n ? n : 1);\n  for (size_t i = 0; i < n; i++) buf[i] = (uint8_t)i;\n")
+		fmt.Fprintf(&m, "  wuffs_%s__it__r(&o, wuffs_base__make_slice_u8(buf, n));\n  printf(\"v\");\n", pkg)
+		m.WriteString("  for (uint32_t i = 0; i < o.private_impl.f_cnt && i < 64; i++) printf(\" %u\", o.private_impl.f_log[i]);\n  printf(\"\\n\");\n  return 0;\n}\n")
+		os.WriteFile(filepath.Join(dir, "main.c"), []byte(m.String()), 0o644)
+		exe := filepath.Join(dir, "m_clang")
+		args := append([]string{}, clangFlags...)
+		args = append(args, "-o", exe, filepath.Join(dir, "main.c"), tc.baseObj["clang"])
+		if err := hlib.CC("clang", args...); err != nil {
+			key := "cc-reject"
+			for _, l := range strings.Split(err.Error(), "\n") {
+				if i := strings.Index(l, "error:"); i >= 0 {
+					key = "cc-reject:" + slug(l[i+6:])
+					break
+				}
+			}
+			r.Fail("iterate-jump:"+key, "the C emitted for an accepted iterate loop with a jump ("+p.name+") is rejected by clang:\n"+firstLines(err.Error(), 8), src)
+			continue
+		}
+		for n := 0; n <= maxN; n++ {
+			var ws []string
+			for _, v := range p.want(n) {
+				ws = append(ws, fmt.Sprint(v))
+			}
+			want := strings.TrimSpace("v " + strings.Join(ws, " "))
+			o, e, err := hlib.RunCmd(30*time.Second, dir, []string{"ASAN_OPTIONS=detect_leaks=0"}, nil, exe, fmt.Sprint(n))
+			got := strings.TrimSpace(string(o))
+			r.Count("iterate-jump:runs")
+			replay := fmt.Sprintf("// iterate loop with a jump (%s); call r on the %d bytes 0,1,…\n%s", p.name, n, src)
+			if err != nil {
+				if strings.Contains(err.Error(), "timeout") {
+					r.Fail("iterate-jump:hang:"+p.name, fmt.Sprintf("the C emitted for an iterate loop with a jump does not return within 30 s on a %d-byte slice (%v)", n, err), replay)
+				} else {
+					r.Fail("iterate-jump:"+sanitizerKey(string(e)), "sanitizer report / crash:\n"+firstLines(string(e), 6), replay)
+				}
+				break
+			}
+			if got != want {
+				r.Fail("iterate-jump:diff:"+p.name, "visited chunks differ from the meaning of the source:\n  C:        "+got+"\n  expected: "+want, replay)
+				break
+			}
+		}
+	}
+}
